@@ -152,7 +152,7 @@ def check_sat(assertions, timeout_ms=5000, mbqi=True):
     timeout is only a backstop (8x)."""
     s = z3.Solver()
     s.set("rlimit", int(timeout_ms * RLIMIT_PER_MS))
-    s.set("timeout", int(timeout_ms * 8))
+    s.set("timeout", int(timeout_ms * 3))
     if not mbqi:
         s.set("smt.mbqi", False)
     for a in assertions:
